@@ -422,6 +422,11 @@ Section Ops.
       (a <> ASucceeded -> r_cl s' = r_cl s).
   Proof.
     intros EL EI. cbv zeta. unfold apply_one. rewrite EL.
+    destruct (negb (kind_known sc (r_known s) (p_id p))).
+    { cbn [fst snd log_req emit ev rec_add set_tbl set_cl add_aband r_cl r_tbl r_aband r_tr r_cache].
+      exists AFailed, 0%N, 0%Z, [].
+      split; [reflexivity|]. split; [discriminate|]. split; [reflexivity|]. split; [reflexivity|]. split; [constructor|].
+      split; [discriminate|reflexivity]. }
     pose proof (same4_policy_apply_filter sc s (p_id p)) as P. pose proof (o4_c_policy_apply_filter s (p_id p)) as PC.
     destruct (policy_apply_filter sc s (p_id p)) as [s1 f1]. cbn [fst] in P, PC. destruct P as [P1 [P2 [P3 P4]]].
     destruct (match f1 with FPass => _ | _ => _ end).
